@@ -28,6 +28,10 @@ one per path against paths x steps) through the module built with it (every form
 Entangled inputs (predicate + model): every family x Greek x root (log-moneyness, time, volatility) on every tier: the root has requires_grad=True
 (leaf or tracked result) and the OTHER arguments were computed from it (running maximum = root.cummax(-1).values, or value + c (root - root.detach()));
 the Greek is the PARTIAL derivative at the values given (harness derivative on fresh detached leaves) through functional form, module, forward, autogreek.
+Re-assigned attributes (predicate + model): every module kind, already in use, gets its public attributes (strike as float / 0-dim tensor; call where
+the kind has puts) re-assigned two to four times; after each re-assignment every Greek (module, forward, autogreek on its price) is the derivative of
+the module's OWN price at that moment and price and Greeks equal, bit by bit, those of a freshly constructed module with the terms the attributes
+show; a second instance of the class with other terms, alive all along, is not affected.
 Glue (correspondence, op "autogreek"; model lean/PfVerif/Model/Autogreek.lean, theorems Lemmas/C08Glue.lean): in the three user-pricer sections
 (every parameterisation; given parameterisation x pricer names on grids; declarations) the pricer is called through a wrapper that RECORDS the
 keyword arguments autogreek hands to it; element by element the signature read with inspect.signature, the caller's keyword arguments and the
@@ -1101,6 +1105,120 @@ def check(ctx):
                                      detail={"element": bad[0], "greek": bad[1], "derivative_of_price": bad[2]})
                             continue
                         to_dual({"entangled_inputs": root, "route": site}, fam, greek, call, k_, base["s"], M, base["t"], base["v"], val)
+    # ---------------- RE-ASSIGNED attributes: a Black-Scholes module that has already been used is re-used for another contract by assigning its
+    # public attributes (`strike` - a float or a 0-dim float64 tensor - for every kind; `call` for the kinds that have puts), two to four
+    # times in a row (strike, call, both at once).  After EVERY re-assignment the module has to behave as a freshly constructed one with the
+    # terms its attributes show: every Greek - through the module, its forward (delta) and autogreek on its price - is the derivative of the
+    # module's OWN price at that moment (harness derivative of mod.price on fresh leaves, the spot taken with the strike the attribute
+    # shows), and price and Greeks are those of a new module built with these terms (same arithmetic on the same tensors: equal bit by
+    # bit).  A second instance of the same class with other terms is alive all along: nothing done to the first may reach it (state kept
+    # on the class).  Every kind x Greek on every tier; float64 results also to the model (op bs_dual, the terms the attributes show).
+    QUANTS = ("price", "delta", "gamma", "vega", "theta")
+    for _ in range(1 if ctx.tier == "quick" else 6):
+        for fam in FAMS:
+            pd = fam in ("american_binary", "lookback")
+            kv = lambda: g.choice(DYADIC_STRIKES) if g.chance(0.3) else g.r.uniform(0.4, 2.5)
+            build = (lambda c_, k__: MODS[fam](strike=k__)) if pd else (lambda c_, k__: MODS[fam](call=c_, strike=k__))
+            call_, k_ = (g.chance(0.5) if not pd else True), kv()
+            mod = build(call_, k_)
+            call_b, k_b = ((not call_) if not pd else True), kv()
+            other = build(call_b, k_b)
+            F = g.choice([(2,), (3,), (2, 2)])
+            pts = lambda: tuple(x.reshape(F) for x in tame_point(fam, math.prod(F)))
+            arg_of = lambda s__, m__, t__, v__: (s__.clone(), m__.clone(), t__.clone(), v__.clone()) if pd else (s__.clone(), t__.clone(), v__.clone())
+            pts_b = pts()
+            other_before = {q: call_impl(getattr(other, q), *arg_of(*pts_b))[:2] for q in QUANTS}
+            for q in QUANTS:                                    # the module is in use before its terms change
+                call_impl(getattr(mod, q), *arg_of(*pts()))
+            history = [f"{type(mod).__name__}(call={call_}, strike={k_!r})"]
+            if pd:
+                steps = ["strike"] * g.randint(2, 3)
+            else:
+                steps = ["strike", "call", "strike+call"]
+                g.r.shuffle(steps)
+                if g.chance(0.5):
+                    steps.append(g.choice(["strike", "call"]))
+            for what in steps:
+                if "strike" in what:
+                    k_new = kv()
+                    while abs(k_new - float(k_)) < 0.05 * float(k_):
+                        k_new = kv()
+                    k_ = torch.tensor(k_new, dtype=torch.float64) if g.chance(0.25) else k_new
+                    mod.strike = k_
+                    history.append(f".strike = {'torch.tensor(%r, dtype=torch.float64)' % k_new if isinstance(k_, torch.Tensor) else repr(k_new)}")
+                if "call" in what:
+                    call_ = not call_
+                    mod.call = call_
+                    history.append(f".call = {call_}")
+                kf = float(k_)
+                fresh = build(call_, k_)
+                s_, m_, t_, v_ = pts()
+                pr = (lambda S, t, v: mod.price((S / kf).log(), m_, t, v)) if pd else (lambda S, t, v: mod.price((S / kf).log(), t, v))
+                refs = harness_greeks(torch, pr, s_.exp() * kf, t_, v_)
+                base_case = {"reassigned": what, "family": fam, "history": list(history), "terms_now": {"call": call_, "strike": kf},
+                             "strike_given_as": "float64-tensor" if isinstance(k_, torch.Tensor) else "float", "shape": list(F),
+                             "s": s_.tolist(), "m": m_.tolist() if pd else None, "t": t_.tolist(), "v": v_.tolist()}
+                for quant in QUANTS:
+                    routes = ["module"] + (["autogreek"] if quant != "price" else []) + (["forward"] if quant == "delta" else [])
+                    for route in routes:
+                        outs = []
+                        for mm in (mod, fresh):
+                            args = arg_of(s_, m_, t_, v_)
+                            if route == "module":
+                                outs.append(call_impl(getattr(mm, quant), *args))
+                            elif route == "forward":
+                                outs.append(call_impl(mm, torch.stack(args, dim=-1)))
+                            else:
+                                params = {"log_moneyness": args[0], "time_to_maturity": args[-2], "volatility": args[-1], "strike": k_}
+                                if pd:
+                                    params["max_log_moneyness"] = args[1]
+                                outs.append(call_impl(getattr(ag, quant), mm.price, **params))
+                        (st, val, _), (st_f, val_f, _) = outs
+                        site = {"module": f"module:{fam}", "forward": f"forward:{fam}", "autogreek": f"autogreek[{fam}.price]"}[route]
+                        case = base_case | {"route": route, "quantity": quant}
+                        ctx.case(case, True, tag="reassigned_attributes")
+                        ctx.stats[f"reassigned_attributes={route}:{fam}:{what}"] += 1
+                        ctx.traces += 1
+                        if st != "ok":
+                            ctx.fail(f"{site}.{quant} raised after the module's public attribute(s) {what} were re-assigned", case,
+                                     key=f"{site}.{quant}:reassigned-{what}:error", detail=val)
+                            continue
+                        if quant != "price":
+                            ref = refs[quant].unsqueeze(-1) if route == "forward" else refs[quant]
+                            if tuple(val.shape) != tuple(ref.shape):
+                                bad = (None, list(val.shape), list(ref.shape))
+                            else:
+                                # both sides double-precision evaluations of the same smooth price on the tame box of the sessions
+                                bad = first_mismatch(val, ref, 1e-10, FLOORS(fam, quant, kf))
+                            if bad:
+                                ctx.fail(f"{site}.{quant} is not the {quant} (derivative) of the module's own price after the module's public "
+                                         f"attribute(s) {what} were re-assigned (price and Greeks of one module belong to different contracts)", case,
+                                         key=f"{site}.{quant}:reassigned-{what}:not-derivative",
+                                         detail={"element": bad[0], "greek": bad[1], "derivative_of_own_price": bad[2]})
+                                continue
+                        if st_f != "ok" or tuple(val.shape) != tuple(val_f.shape) or val.dtype != val_f.dtype or not torch.equal(val.detach(), val_f.detach()):
+                            ctx.fail(f"{site}.{quant} of a module whose public attribute(s) {what} were re-assigned differs from the one of a freshly "
+                                     "constructed module with the same terms", case, key=f"{site}.{quant}:reassigned-{what}:differs-from-fresh-module",
+                                     detail={"reused_module": val.detach().reshape(-1).tolist()[:6],
+                                             "fresh_module": val_f.detach().reshape(-1).tolist()[:6] if st_f == "ok" else val_f})
+                            continue
+                        if quant != "price" and val.dtype == torch.float64:
+                            to_dual({"reassigned": what, "route": site, "history": list(history)}, fam, quant, call_, kf, s_, m_, t_, v_,
+                                    val.squeeze(-1) if route == "forward" else val)
+            # the instance that was left alone
+            for q in QUANTS:
+                st, val, _ = call_impl(getattr(other, q), *arg_of(*pts_b))
+                st0, val0 = other_before[q]
+                case = {"two_instances": fam, "quantity": q, "untouched_instance": {"call": call_b, "strike": k_b}, "history_of_the_other_instance": list(history),
+                        "s": pts_b[0].tolist(), "m": pts_b[1].tolist() if pd else None, "t": pts_b[2].tolist(), "v": pts_b[3].tolist()}
+                ctx.case(case, True, tag="two_instances")
+                ctx.stats[f"two_instances={fam}"] += 1
+                ctx.traces += 1
+                if st != st0 or (st == "ok" and not torch.equal(val.detach(), val0.detach())) or (st != "ok" and val != val0):
+                    ctx.fail(f"module:{fam}.{q} of an instance nobody touched changed while the attributes of ANOTHER instance of the class were "
+                             "re-assigned", case, key=f"module:{fam}.{q}:two-instances:changed-by-another-instance",
+                             detail={"before": val0.detach().reshape(-1).tolist()[:6] if st0 == "ok" else val0,
+                                     "after": val.detach().reshape(-1).tolist()[:6] if st == "ok" else val})
     for req_, meta_ in grid_dual:
         dual_reqs.append(req_)
         dual_meta.append(meta_)
@@ -1688,6 +1806,10 @@ def check(ctx):
              "every family x Greek with a float64 tensor strike (0-dim, (1,), per element, per path) through module / forward / functional / autogreek; "
              "every family x Greek x root in {log-moneyness, time, volatility} with requires_grad=True and the other arguments computed from the root "
              "(cummax running maximum, value-preserving graph ties): partial derivative at the given values, vs fresh detached leaves and the model; "
+             "every module kind re-used for other contracts by re-assigning its public attributes (strike as float / 0-dim tensor, call) two to four "
+             "times: after each re-assignment every Greek through module / forward / autogreek on its price vs the harness's derivative of the "
+             "module's own price, price and Greeks bit by bit vs a freshly constructed module with the same terms, and vs the model; a second "
+             "instance of the class alive all along is unaffected; "
              "the glue of autogreek (op autogreek): every call of the three user-pricer sections through a recording wrapper, element by element - "
              "keyword arguments received (names exactly, values to 1e-12), error kind, Greek (1e-8, gamma 1e-7) vs the model's parse / derive / "
              "signature filter / argument binding / dual-number evaluation of the symbolically executed body; 8 kinds of glue-only cases x 4 Greeks "
